@@ -380,6 +380,7 @@ func determStream(r *Run) {
 	// same-named struct types, rendered in sequence in this process (implementation only: no case line)
 	if r.Shard == 0 {
 		sameNamedTypesFamily(r)
+		determClass4KeysFamily(r)
 	}
 	// a fixed family: maps whose keys stress the key order itself — integer keys of every width that
 	// are large and closely spaced (beyond float64 precision), negative, mixed magnitudes; many string
